@@ -308,6 +308,7 @@ func execSeq(f []string) {
 		}
 		sc.pdc.queue = []pdres{parsePD(f[4])}
 		before := sc.pdc.calls
+		lrBefore, lrErr := sc.o.GetLowResolutionTimestamp(ctx, opt(f[2]))
 		ts, err := sc.o.GetStaleTimestamp(ctx, scopes[pn(f[2])], pu(f[3]))
 		slack := time.Since(sc.t0).Milliseconds() + 2
 		r := "ok " + u(ts)
@@ -321,7 +322,7 @@ func execSeq(f []string) {
 				r = "errpd"
 			}
 		}
-		emit("seq", "S", f[2], f[3], f[4], "=>", r, strconv.Itoa(sc.pdc.calls-before), i(slack))
+		emit("seq", "S", f[2], f[3], f[4], "=>", r, strconv.Itoa(sc.pdc.calls-before), i(slack), tsres(lrBefore, lrErr))
 	case "I": // ns
 		if sc.o == nil {
 			return
@@ -347,11 +348,12 @@ type sfCase struct {
 }
 
 var sf *sfCase
+var sfBroken bool // a quiescence wait timed out: the remaining sf steps are not executed
 
 func (c *sfCase) pdAt(k int64) uint64 { return c.base + uint64(k)*c.stride }
 func (c *sfCase) finished() int      { c.mu.Lock(); defer c.mu.Unlock(); return len(c.res) }
 func (c *sfCase) quiesce() bool {
-	deadline := time.Now().Add(10 * time.Second)
+	deadline := time.Now().Add(5 * time.Second)
 	for n := 0; ; n++ {
 		fin := c.finished()
 		np := c.pdc.npending()
@@ -388,20 +390,32 @@ func (c *sfCase) state() []string {
 		}
 	}
 	lr, err := c.o.GetLowResolutionTimestamp(context.Background(), &oracle.Option{TxnScope: "global"})
-	return []string{strings.Join(r, ";"), tsres(lr, err)}
+	c.pdc.mu.Lock()
+	k := c.k
+	c.pdc.mu.Unlock()
+	return []string{strings.Join(r, ";"), tsres(lr, err), strconv.FormatInt(k, 10)}
 }
 func execSf(f []string) {
 	op := f[1]
+	if sfBroken && op != "begin" {
+		emit("sf", op, "=>", "timeout", "-", "0")
+		return
+	}
 	fin := func(in ...string) {
 		ok := sf.quiesce()
 		st := sf.state()
 		if !ok {
-			st = []string{"timeout", "-"}
+			st = []string{"timeout", "-", "0"}
+			sfBroken = true
 		}
 		emit(append(append(append([]string{"sf"}, in...), "=>"), st...)...)
 	}
 	switch op {
 	case "begin": // id mode base stride
+		if sfBroken {
+			emit(append([]string{"sf"}, append(f[1:], "=>")...)...)
+			return
+		}
 		if sf != nil && sf.o != nil {
 			sf.o.Close()
 		}
